@@ -51,7 +51,7 @@ func seqKindOf(v *model.V) string {
 func clean(vs ...*model.V) bool {
 	for _, tg := range tagsOf(vs...) {
 		switch tg {
-		case "superimposed", "bytes-sparse", "odd-sugar":
+		case "superimposed", "bytes-sparse", "odd-sugar", "pinned-sugar-literal":
 			return false
 		}
 	}
